@@ -2,7 +2,8 @@
 """Regenerate MANIFEST.json from props_cfg.json (claimed checks) and not_applicable.json."""
 import json, os, sys
 V = os.path.dirname(os.path.dirname(os.path.abspath(__file__)))
-cfg = json.load(open(os.path.join(V, 'props_cfg.json')))
+import glob
+cfg = {os.path.basename(p)[:-5]: json.load(open(p)) for p in glob.glob(os.path.join(V, 'props', 'C*.json'))}
 na = json.load(open(os.path.join(V, 'not_applicable.json')))
 checks = []
 for pid in sorted(cfg):
